@@ -4,5 +4,11 @@ import PGV.Props.C01
 #print axioms PGV.Props.C01.C01_range_verdict
 #print axioms PGV.Props.C01.C01_eq_verdict
 #print axioms PGV.Props.C01.C01_verdict
+#print axioms PGV.Props.C01.intToBytes_chars
+#print axioms PGV.Props.C01.intToBytes_no
+#print axioms PGV.Props.C01.boundsText_noBar
+#print axioms PGV.Props.C01.parseBounds_boundsText
+#print axioms PGV.Props.C01.parse_ruleText
+#print axioms PGV.Props.C01.C01_verdict_text
 #print axioms PGV.Props.C01.C01_width_signedness_indep
 #print axioms PGV.Props.C01.F_C01_e_witness
